@@ -86,11 +86,15 @@ class Codec(AS.Function):
             metadata, [argument], (AS.Integer | AS.Bytes)
         )
         if isinstance(argument, AS.Integer):
-            return AS.Bytes(
-                int.to_bytes(
-                    argument.value, self.num_bytes, endianness, signed=signed
-                )
+            encoded = int.to_bytes(
+                argument.value, self.num_bytes, endianness, signed=signed
             )
+            # int.to_bytes lets -1 through when no bytes are requested.
+            if int.from_bytes(encoded, endianness, signed=signed) != (
+                argument.value
+            ):
+                raise OverflowError("int too big to convert")
+            return AS.Bytes(encoded)
         return AS.Integer(
             int.from_bytes(argument.value, endianness, signed=signed)
         )
